@@ -6,8 +6,9 @@ import JP.Lemmas.CopyTotal
 `copySizeOf o r op` (`JP/Check.lean`) is the size `deepCopy` reports for the copy `op` in
 state `r`; `copySizes` lists these sizes along a run of a whole patch.
 `Impl.CopyResolves o r op` (`JP/Lemmas/CopySize.lean`) says that source and destination of
-the copy resolve: the two walks of `opCopy` (`copySource` for `from`, then the walk to the
-destination's container) end in `done`/`doneSelf`, and the source can be read again.
+the copy resolve: the first step of `opCopy` (`copyFirst`: the live root for `from = ""` unless it
+is null, otherwise the walk `copySource` for `from`) and the walk to the destination's container
+end in `done`, and the source can be read again.
 -/
 
 namespace JP.C12
